@@ -101,9 +101,9 @@ def c12_driver(a, col):
         # ---- displacement / squeezing / phase
         for _ in range(10):
             d = int(rng.integers(1, maxcut + 1))
-            al = complex(rng.uniform(0.05, 1.8) * np.exp(1j * rng.uniform(0, 2 * math.pi)))
-            ze = complex(rng.uniform(0.05, 0.8) * np.exp(1j * rng.uniform(0, 2 * math.pi)))
-            th = float(rng.uniform(-7, 9))
+            al = _axis(complex(rng.uniform(0.05, 1.8) * np.exp(1j * _phase(rng))))
+            ze = _axis(complex(rng.uniform(0.05, 0.8) * np.exp(1j * _phase(rng))))
+            th = _angle(rng)
             D = np.asarray(ops.displacement_operator(d, al), complex)
             Dm = np.asarray(ops.displacement_operator(d, -al), complex)
             Sq = np.asarray(ops.squeezing_operator(d, ze), complex)
@@ -131,13 +131,13 @@ def c12_driver(a, col):
         for t in ("I", "X", "Y", "Z", "H", "S", "T", "SX"):
             specs.append(({"fam": "pol", "type": t}, [2]))
         for t in ("RX", "RY", "RZ"):
-            specs.append(({"fam": "pol", "type": t, "theta": float(rng.uniform(-7, 9))}, [2]))
+            specs.append(({"fam": "pol", "type": t, "theta": _angle(rng)}, [2]))
         specs.append(({"fam": "pol", "type": "U3", "phi": float(rng.uniform(-7, 9)), "theta": float(rng.uniform(-7, 9)),
                        "omega": float(rng.uniform(-7, 9))}, [2]))
         for t in ("Creation", "Annihilation", "Identity"):
             specs.append(({"fam": "fock", "type": t}, [int(rng.integers(1, maxcut))]))
         specs.append(({"fam": "fock", "type": "PhaseShift", "phi": float(rng.uniform(-7, 9))}, [int(rng.integers(1, maxcut))]))
-        al = complex(rng.uniform(0.05, 1.5) * np.exp(1j * rng.uniform(0, 2 * math.pi)))
+        al = _axis(complex(rng.uniform(0.05, 1.5) * np.exp(1j * _phase(rng))))
         specs.append(({"fam": "fock", "type": "Displace", "alpha": [al.real, al.imag]}, [int(rng.integers(2, maxcut))]))
         specs.append(({"fam": "fock", "type": "Squeeze", "zeta": [al.real / 3, al.imag / 3]}, [int(rng.integers(2, maxcut))]))
         for t in ("CXPolarization", "CZPolarization", "SwapPolarization"):
@@ -411,6 +411,25 @@ def c16_driver(a, col):
 
 
 # =========================================================================== C19
+
+
+def _phase(rng):
+    """a phase angle: on an axis (exactly real positive / negative, exactly imaginary) a third of the time - inputs of
+    measure zero under a uniform draw, and exactly where special-cased code paths live"""
+    if rng.random() < 0.35:
+        return float(rng.choice([0.0, math.pi, math.pi / 2, -math.pi / 2]))
+    return float(rng.uniform(0, 2 * math.pi))
+
+
+def _axis(z):
+    """snap rounding dust of an axis-aligned complex number to exact zeros (cos(pi/2) is 6e-17, not 0)"""
+    return complex(0.0 if abs(z.real) < 1e-12 * abs(z) else z.real, 0.0 if abs(z.imag) < 1e-12 * abs(z) else z.imag)
+
+
+def _angle(rng):
+    if rng.random() < 0.2:
+        return float(rng.choice([0.0, math.pi, -math.pi, 2 * math.pi, math.pi / 2, -math.pi / 2, 4 * math.pi]))
+    return float(rng.uniform(-7, 9))
 
 
 def c19_driver(a, col):
